@@ -109,5 +109,47 @@ CLAIMED = {
          "foreground/background channels (log_channel.c needs thread interleavings CBMC cannot explore for pointer-sharing threads, and the "
          "sequentialised harness was not built in this round). A genuine defect (cut lines ended in NULs, no newline) was found and fixed.",
     technique="CBMC bounded symbolic execution of log_formatter.c with contract stubs for libc formatting; all truncation points as solver variables"),
+ "C02": dict(
+    text="Hash table at 4 slots (max load 3): from an ARBITRARY state satisfying the representation invariant (stored hash == hash_fn(key) with "
+         "0 mapped to 1, no duplicate keys, entry count, Robin-Hood probe order incl. wrap-around) and an ARBITRARY hash function (a table of "
+         "solver-chosen 64-bit values: constant, clustered, slot-array-end and zero hashes are instances), keys that may be equal-but-distinct "
+         "pointers, with and without destructors: find, create, remove (with/without out-parameter), remove_element, clear and a full iteration "
+         "with keep/delete/delete+destroy chosen by the solver at every step each re-establish the invariant, agree with a reference map for every "
+         "key, report the right count, visit every entry exactly once, and run destructors exactly once per displaced entry and never otherwise. "
+         "put (overwrite semantics) is decided in the thorough tier only (815 s with cadical).",
+    note="One inductive step from an arbitrary invariant state covers histories of any length at this table size. NOT decided: the growth step "
+         "s_expand_table and aws_hash_table_init (harnesses exhaust 12 GB), tables larger than 4 slots, foreach/swap/move/eq wrappers, the "
+         "library's own hash/eq pairs. s_expand_table is cut (assert-false) in the no-resize unit under an assumption that makes it unreachable.",
+    technique="CBMC bounded symbolic execution of hash_table.c, one-step induction over a representation invariant with a symbolic hash function"),
+ "C19": dict(
+    text="Library-side date-time parsing: for 11 (quick) / 12 textual shapes (ISO 8601 extended/basic, with Z, numeric offsets +hh:mm / -hhmm, "
+         "fractional seconds, date-only, lower-case designators; RFC 822 with/without weekday, GMT/UT/utc, numeric offset, two-digit year) with "
+         "EVERY digit and the month name symbolic: the broken-down fields handed to the calendar are exactly the written ones, UTC is assumed for "
+         "all designators and offsets (timegm, never mktime), instant = calendar(fields) - offset, explicit-format parsing == auto-detection; the "
+         "epoch views (seconds / milliseconds / nanoseconds) are mutually consistent for every instant 1970..9999 (nanoseconds saturate after 2554).",
+    note="PARTIAL by construction: the calendar (timegm/gmtime_r), strftime formatting and therefore the instant-level format->parse round trip and "
+         "agreement with the proleptic Gregorian calendar are glibc code outside /repo and are NOT decided; aws_timegm/mktime/aws_gmtime/aws_localtime "
+         "are stubs that record their argument and return a symbolic instant. A genuine defect (RFC 822 without weekday lost the first day digit) "
+         "was found and fixed.",
+    technique="CBMC bounded symbolic execution of date_time.c parsers over fixed textual shapes with symbolic digits (SAT kissat; cvc5 bv-as-int for epoch views)"),
 }
-NOT_APPLICABLE = {p: PENDING for p in ["C%02d" % i for i in range(1, 21)]}
+NA = {
+ "C03": "small-block allocator: its page lookup masks addresses (addr & ~(PAGE-1)) over a pointer-rich heap; from-init histories did not finish symbolic "
+        "execution in 900 s even for one operation (DESIGN.md section 5) and no further attempt fitted in this round; concurrency clause needs thread interleavings CBMC rejects",
+ "C08": "thread scheduler: needs interleavings of pointer-sharing threads (CBMC: 'pointer handling for concurrency is unsound'); the sequentialised "
+        "harness over task_scheduler.c did not finish symbolic execution (see C07: every program that pops the timed heap timed out), so nothing could be built on it",
+ "C11": "JSON: cJSON's growing print buffer and recursive parser exceeded 12 GB / 240 s in every CBMC instance tried for the neighbouring parsers of this size "
+        "(cbor, uri); numbers rest on libc strtod/sprintf %g which have no encodable semantics here; not attempted further in this round",
+ "C12": "XML well-formed traversal: harness with an independent reference parser was built (harness/C12), but CBMC finishes only when the document AND the "
+        "callback choices are fully concrete (1-2 s); any symbolic document byte or per-node choice exceeded 240 s, and a fully concrete run is enumeration, "
+        "not a solver verdict over inputs, so it is not claimed. Memory safety of the parser on arbitrary short documents is part of C04.",
+ "C17": "memory tracer: histories go through aws_hash_table with 1024 slots and lookup3 over pointer bytes; the 4-slot hash-table steps alone need 3-13 minutes "
+        "each (C02) and from-init hash-table use exhausts 12 GB, so a tracer history is out of reach; the thread clause needs interleavings CBMC rejects",
+ "C18": "linked hash table and caches are built on aws_hash_table from aws_hash_table_init: that constructor and the resize step exhaust 12 GB under CBMC (C02), "
+        "so no cache program can be encoded within reach",
+ "C19": "date-time: formatting and the calendar are glibc's strftime/timegm/gmtime_r (outside /repo, no encodable semantics); the library's own parsers "
+        "were planned (DESIGN.md C19) but not reached in this round",
+ "C20": "threads: launch/join/at-exit/managed-thread bookkeeping is only observable through interleavings of pthread-created, pointer-sharing threads, which CBMC "
+        "rejects ('pointer handling for concurrency is unsound'); the sequentialised harness planned in DESIGN.md 4.5 was not reached in this round",
+}
+NOT_APPLICABLE = {p: NA.get(p, PENDING) for p in ["C%02d" % i for i in range(1, 21)]}
